@@ -2,6 +2,7 @@
 C02 — Interrupts, errors and kills never lose the last accepted version.
 -/
 import LithiumProofs.World
+import LithiumProofs.WorldHooks
 
 namespace World
 
@@ -46,6 +47,14 @@ theorem C02_hooks (orig : Testcase) (diskOrig : Bytes) (evs : List Ev) (first : 
       have := (log_loop _ _ evs hl).trace
       obtain ⟨ht, -, htr, -, -⟩ := afterLoop_fields (loop (interesting (start orig diskOrig) orig false .accept).1 evs)
       rw [ht, htr, this]
+
+/-- the same for ANY history: the object in any prior state `w0` (earlier runs, their hooks and tests), any events, any
+first verdict, however the run ends (returns, raises in a test, the strategy fails): the hooks and tests of THIS run are
+init once, its tests, cleanup once — appended to what was there -/
+theorem C02_hooks_any_history (w0 : W) (evs : List Ev) (first : Outcome) :
+    (runMainW w0 evs first).trace = w0.trace ++ Hook.init ::
+      ((runMainW w0 evs first).tests.drop w0.tests.length).map (fun r => Hook.test r.idx) ++ [Hook.cleanup] :=
+  hooks_any_history w0 evs first
 
 /-- if the whole process is killed while test number k+1 is running, the temp directory as it
 is at that moment already identifies the most recently accepted version: the highest-numbered
